@@ -30,14 +30,20 @@ def run(ctx):
         out = []
         ok = [e for e in events if e["st"] == "ok" and e["valid"] and e["op"] == "dinuc" and e["end"] - e["start"] >= 4
               and len(set(e["y"][0][0][e["start"]:e["end"]])) > 1]
+        def pairs(q, a, b):
+            from collections import Counter
+            return Counter(zip(q[a:b - 1], q[a + 1:b]))
+        done = False
         for e in ok:
-            c = copy.deepcopy(e)
-            seq = c["y"][0][0]
-            i = c["start"] + 1
-            if seq[i] != seq[i + 1]:
-                seq[i], seq[i + 1] = seq[i + 1], seq[i]        # breaks the dinucleotide multiset, keeps the composition
-                c["key"] = 0
-                out.append(c)
+            seq0 = e["y"][0][0]
+            for i in range(e["start"] + 1, e["end"] - 2):
+                seq = list(seq0)
+                seq[i], seq[i + 1] = seq[i + 1], seq[i]      # keeps the composition; must break the dinucleotide multiset
+                if pairs(seq, e["start"], e["end"]) != pairs(seq0, e["start"], e["end"]):
+                    c = copy.deepcopy(e); c["y"][0][0] = seq; c["key"] = 0
+                    out.append(c); done = True
+                    break
+            if done:
                 break
         ok = [e for e in events if e["st"] == "ok" and e["valid"] and e["op"] == "shuffle"]
         if ok:
